@@ -462,10 +462,10 @@ Proof.
       * intros _. rewrite E0 in Hex. auto.
       * intros k H. discriminate.
       * unfold bad. split; [discriminate|]. intros [(c & H)|[H|[_ H]]]; discriminate.
-    + simpl negb. apply (FInv_reap s t (Error (Some (code t))) true); auto.
+    + simpl negb. apply (FInv_reap s t (Error (if code t <? 256 then Some (code t) else None)) true); auto.
       * right. eauto.
       * discriminate.
-      * intros k H. inversion H; subst. auto.
+      * intros k H. destruct (code t <? 256); inversion H; subst. auto.
       * unfold bad. split; [intros _; left; eauto | reflexivity].
   - (* ReapCancelled *)
     destruct (ph s) eqn:Eph; try exact I.
